@@ -183,6 +183,7 @@ ilu_dpivotL(
 	fflush(stdout);
 #endif
 	info = jcol + 1;
+	SLU_VERIF_EVENT(2, jcol, 0);
     } /* end if (*pivrow == 0.0) */
     else {
 	thresh = u * pivmax;
